@@ -20,3 +20,8 @@ Inductive wcond_frac := FIsClose1.
 Inductive fscale := FIdentity | FMulPowInv.
 Inductive datom := DExpInf | DNdim0.
 Inductive dval := DOne | DCellVolume.
+
+(* _inner_default: decision tree over dtype class and size regime, leaves = which sum is computed *)
+Inductive kcond := KIsReal | KIsLarge.
+Inductive kernel := KBilinear | KConjSecond | KConjFirst.
+Inductive ktree := KLeaf (k : kernel) | KIf (c : kcond) (a b : ktree).
